@@ -541,7 +541,9 @@ SPEC = Spec(
         "mapping fields in hand-written hashes; R04-NEQ keeps non_equality_tags out "
         "of both; R04-PICKLE checks the generated __getstate__/__setstate__ carry "
         "fields only and the hash cache attribute is not a field; R04-EXHAUSTIVE "
-        "checks every kind has a handler and __eq__ only delegates."),
+        "checks every kind has a handler and __eq__ only delegates; R04-MEMO-KEY: "
+        "the memo of pairwise comparisons is keyed on both operands; "
+        "R04-HASH-IDENTITY: a kind hashed by identity is compared by identity."),
     not_decided=(
         "Transitivity through third-party __eq__ of leaf values (numpy dtypes, "
         "loopy translation units, pymbolic expressions); that every pair of "
